@@ -22,6 +22,6 @@ fi
 cd /verif
 for c in $CHECKS; do
   echo "== check $c (quick) on changed tree"
-  VERIF_REPO="$SCR" VF_SHARDS=${VF_SHARDS:-8} VF_BUDGET=${VF_BUDGET:-0} /venv/bin/python -m vf check "$c" --tier quick 2>&1 | sed "s#$SCR#<scratch>#g" | grep -v "^  monitors\|^  distinct" | cut -c1-400 | tail -6
+  VERIF_REPO="$SCR" VF_SHARDS=${VF_SHARDS:-8} /venv/bin/python -m vf check "$c" --tier quick 2>&1 | sed "s#$SCR#<scratch>#g" | grep -v "^  monitors\|^  distinct" | cut -c1-400 | tail -6
   echo "check $c exit=${PIPESTATUS[0]}"
 done
